@@ -15,6 +15,7 @@ import (
 	"net"
 	"net/http"
 	"net/http/httptest"
+	"net/url"
 	"os"
 	"strconv"
 	"strings"
@@ -82,6 +83,7 @@ type Scenario struct {
 	Headers    map[string]string `json:"headers,omitempty"`
 	Timeout    time.Duration     `json:"timeout,omitempty"` // WithTimeout (0: the default)
 	Hang       bool              `json:"hang,omitempty"`    // the collector never answers
+	proxy      func(*http.Request) (*url.URL, error) // WithProxy (transport error injection)
 	HookBefore bool              `json:"hook_before,omitempty"` // the cancellation happens before response CancelAt is written (deterministic), not after
 }
 
@@ -112,6 +114,7 @@ type collector struct {
 	arrivals []arrival
 	after    func(idx int) // hook run once response idx has been written
 	release  chan struct{} // closed at the end of a scenario: lets a hanging collector's handlers go
+	lastBody []byte        // the body of the most recent request
 	hookLag  atomic.Int64  // ns between "response written" and "cancellation / shutdown issued" (after-hooks): scheduling delay of the harness
 }
 
@@ -125,6 +128,7 @@ func (c *collector) next(body []byte, hdr bool) int {
 	c.mu.Lock()
 	defer c.mu.Unlock()
 	c.arrivals = append(c.arrivals, arrival{time.Since(c.start), hashBody(body), hdr})
+	c.lastBody = body
 	return len(c.arrivals) - 1
 }
 
@@ -324,6 +328,9 @@ func mkExporter(e int, endpoint string, sc *Scenario) (*exporter, error) {
 		if sc.Timeout > 0 {
 			opts = append(opts, otlptracehttp.WithTimeout(sc.Timeout))
 		}
+		if sc.proxy != nil {
+			opts = append(opts, otlptracehttp.WithProxy(sc.proxy))
+		}
 		x, err := otlptracehttp.New(ctx, opts...)
 		if err != nil {
 			return nil, err
@@ -366,6 +373,9 @@ func mkExporter(e int, endpoint string, sc *Scenario) (*exporter, error) {
 			if sc.Timeout > 0 {
 				opts = append(opts, otlpmetrichttp.WithTimeout(sc.Timeout))
 			}
+			if sc.proxy != nil {
+				opts = append(opts, otlpmetrichttp.WithProxy(sc.proxy))
+			}
 			x, err := otlpmetrichttp.New(ctx, opts...)
 			if err != nil {
 				return nil, err
@@ -401,6 +411,9 @@ func mkExporter(e int, endpoint string, sc *Scenario) (*exporter, error) {
 			}
 			if sc.Timeout > 0 {
 				opts = append(opts, otlploghttp.WithTimeout(sc.Timeout))
+			}
+			if sc.proxy != nil {
+				opts = append(opts, otlploghttp.WithProxy(sc.proxy))
 			}
 			x, err := otlploghttp.New(ctx, opts...)
 			if err != nil {
@@ -1011,6 +1024,77 @@ func buildTimeoutCases(r *vgen.Rand) []*TimeoutCase {
 }
 
 // ---------------------------------------------------------------------------
+// Transport errors (HTTP exporters, through the public WithProxy option): the proxy function fails the first k
+// round trips with a net.Error - temporary (Temporary() true, Timeout() false: a DNS-style error) or not - and
+// lets the following ones through.  A temporary error must be retried, any other is final.
+// ---------------------------------------------------------------------------
+
+type NetErrObs struct {
+	Calls    int    `json:"transport_calls"`
+	Requests int    `json:"requests_at_collector"`
+	BodyOK   bool   `json:"body_is_own_payload"`
+	Err      string `json:"err"`
+	ErrClass int    `json:"err_class"`
+	Elapsed  int64  `json:"elapsed_ns"`
+}
+
+func runNetErr(e int, temporary bool, k int, token string) (ob NetErrObs, failure string, inconclusive string) {
+	defer func() {
+		if r := recover(); r != nil {
+			failure = fmt.Sprintf("panic: %v", r)
+		}
+	}()
+	var calls atomic.Int64
+	sc := &Scenario{Exporter: e, Enabled: true, Initial: 2 * time.Millisecond, MaxElapsed: 20 * time.Second, CancelAt: -1, ShutdownAt: -1,
+		Token: token, Script: []Resp{{Status: 200}}}
+	sc.proxy = func(*http.Request) (*url.URL, error) {
+		if int(calls.Add(1)) <= k {
+			return nil, &net.DNSError{Err: "scripted lookup failure", Name: "collector.invalid", IsTemporary: temporary, IsNotFound: !temporary}
+		}
+		return nil, nil // no proxy: straight to the collector
+	}
+	c := &collector{sc: sc, start: time.Now()}
+	endpoint, stop, err := startCollector(c)
+	if err != nil {
+		return ob, "collector: " + err.Error(), ""
+	}
+	defer stop()
+	x, err := mkExporter(e, endpoint, sc)
+	if err != nil {
+		return ob, "exporter construction: " + err.Error(), ""
+	}
+	done := make(chan error, 1)
+	t0 := time.Now()
+	go func() { done <- x.export(context.Background()) }()
+	var eerr error
+	select {
+	case eerr = <-done:
+	case <-time.After(30 * time.Second):
+		return ob, "export did not return within 30 s (watchdog)", ""
+	}
+	ob.Elapsed = int64(time.Since(t0))
+	sctx, scancel := context.WithTimeout(context.Background(), 5*time.Second)
+	x.shutdown(sctx)
+	scancel()
+	ob.Calls = int(calls.Load())
+	c.mu.Lock()
+	ob.Requests = len(c.arrivals)
+	ob.BodyOK = ob.Requests > 0 && ownPayload(signal(e), c.lastBody, token)
+	c.mu.Unlock()
+	if eerr != nil {
+		ob.Err = eerr.Error()
+		if len(ob.Err) > 200 {
+			ob.Err = ob.Err[:200]
+		}
+	}
+	ob.ErrClass = errClass(eerr)
+	if time.Duration(ob.Elapsed) > 8*time.Second {
+		inconclusive = "the export took more than 8 s of wall clock: a default timeout may have interfered"
+	}
+	return ob, "", inconclusive
+}
+
+// ---------------------------------------------------------------------------
 // generators
 // ---------------------------------------------------------------------------
 
@@ -1495,6 +1579,33 @@ func main() {
 			vgen.Bool(ob.ExportReturned), vgen.N(uint64(ob.ExportErrClass)), vgen.Nat(ob.Late), vgen.N(uint64(ob.LaterErrClass)))
 		w.Tally("shutdown-expired:" + exporterNames[sc.e])
 		w.Add(term, desc, "shutdown-expired-ctx-"+exporterNames[sc.e], true)
+	}
+	// transport errors: k temporary errors then success; non-temporary: final
+	for e := 0; e < 3; e++ {
+		for _, temporary := range []bool{true, false} {
+			for k := 1; k <= 3; k++ {
+				tok := fmt.Sprintf("ntk%d%v%dx", e, temporary, k)
+				ob, fail, inc := runNetErr(e, temporary, k, tok)
+				if fail != "" || inc != "" {
+					w.Tally("rerun-sequentially")
+					ob, fail, inc = runNetErr(e, temporary, k, tok+"r")
+				}
+				desc := map[string]any{"exporter": exporterNames[e], "temporary": temporary, "errors_before_success": k, "observed": ob}
+				if fail != "" {
+					w.Violation(fail, desc)
+					continue
+				}
+				if inc != "" {
+					inconclusive++
+					w.Tally("inconclusive:transport-error")
+					continue
+				}
+				term := vgen.App("CNetErr", vgen.N(uint64(e)), vgen.Bool(temporary), vgen.Nat(k), vgen.Nat(ob.Calls), vgen.Nat(ob.Requests),
+					vgen.Bool(ob.BodyOK), vgen.N(uint64(ob.ErrClass)))
+				w.Tally(fmt.Sprintf("transport-error:temporary=%v", temporary))
+				w.Add(term, desc, "transport-error-"+exporterNames[e], true)
+			}
+		}
 	}
 	bursts := genBursts(r.Fork(), o.Tier)
 	for bi := range bursts {
